@@ -94,7 +94,13 @@ impl Blob {
         section_header.to_writer(writer)?;
 
         // Write blob data
-        let length = std::io::copy(reader, writer).write_err("Failed to write blob data")?;
+        let copied = std::io::copy(reader, writer);
+        if copied.is_err() {
+            // The incomplete section stays behind as unused bytes if the data source fails.
+            // Everything that is written later must still start at a 4-byte offset.
+            let _ = writer.align();
+        }
+        let length = copied.write_err("Failed to write blob data")?;
 
         // Update blob section header with actual lenght
         let end_offset = writer.physical_position()?;
